@@ -64,7 +64,9 @@ struct P<'a> {
 
 type R<X> = Result<X, ParseError>;
 
-pub const MAX_DEPTH: usize = 3000;
+/// Far above anything the checks generate in-process (threads have a 1 GiB stack);
+/// hitting it is a limit of the harness, never a verdict.
+pub const MAX_DEPTH: usize = 200_000;
 
 impl<'a> P<'a> {
     fn peek(&self) -> &T {
